@@ -616,8 +616,16 @@ class ExcAnalysis:
         if len(cs) != 1:
             return False
         rets = [r for r in iter_own_nodes(cs[0].node) if isinstance(r, ast.Return)]
-        return bool(rets) and all(isinstance(r.value, ast.Tuple) and len(r.value.elts) == arity and
-                                  not any(isinstance(e, ast.Starred) for e in r.value.elts) for r in rets)
+
+        def record_of(r: ast.Return) -> bool:
+            # a NamedTuple of the package: as many values as it has fields
+            if not isinstance(r.value, ast.Call) or not isinstance(r.value.func, (ast.Name, ast.Attribute)):
+                return False
+            c = self.prog.resolve_expr_symbol(cs[0].module, r.value.func)
+            return isinstance(c, ClassInfo) and any(str(b).split('.')[-1] == 'NamedTuple' for b in c.bases) and \
+                len(self.prog.class_fields(c)) == arity
+        return bool(rets) and all((isinstance(r.value, ast.Tuple) and len(r.value.elts) == arity and
+                                   not any(isinstance(e, ast.Starred) for e in r.value.elts)) or record_of(r) for r in rets)
 
     def _unpack_of_table_entry(self, fn: FuncInfo, n: ast.Assign, arity: int) -> bool:
         try:
@@ -1676,6 +1684,22 @@ class ExcAnalysis:
         cfn, arg, cnode = binding[place]
         if arg is None:
             return MAYBE
+        consts = self._iter_var_constants(cfn, arg) if isinstance(arg, ast.Name) else None
+        if consts:
+            # the argument is the variable of a loop / comprehension over constants of the package: the atom, value by value
+            def on(c) -> Optional[str]:
+                if kind == 'none':
+                    return YES if c is None else NO
+                if kind == 'truthy':
+                    return YES if c else NO
+                if kind == 'isinstance' and atom[2] and atom[2][0] in ('str', 'int', 'bool', 'float'):
+                    py = {'str': str, 'int': int, 'bool': bool, 'float': float}[atom[2][0]]
+                    return YES if isinstance(c, py) else NO
+                return None
+            truths = {on(c) for c in consts}
+            if len(truths) == 1 and None not in truths:
+                t_ = truths.pop()
+                return YES if (t_ == YES) == pol else NO
         v = A.at(cfn, arg, cnode)
         if place in not_none and v.none != YES:
             v.none = NO
@@ -1755,6 +1779,85 @@ class ExcAnalysis:
                 return res(NO)
             return MAYBE
         return MAYBE
+
+    def _iter_var_constants(self, fn: FuncInfo, name: ast.Name) -> Optional[list]:
+        """`name` is bound only as the target of one loop / comprehension of `fn` whose iterable is, at every call that reaches
+        it, a display of constants of the package (literals, module-level constants; handed down through parameters, from all
+        call sites, defaults included): the Python values.  None when not known."""
+        prog = self.prog
+        env = self.cg.env(fn)
+        if name.id in [a.arg for a in fn.params()]:
+            return None
+        binders = []
+        for x in iter_own_nodes(fn.node):
+            if isinstance(x, ast.comprehension) and isinstance(x.target, ast.Name) and x.target.id == name.id:
+                binders.append(x.iter)
+            elif isinstance(x, ast.For) and isinstance(x.target, ast.Name) and x.target.id == name.id:
+                binders.append(x.iter)
+            elif isinstance(x, ast.Name) and x.id == name.id and isinstance(x.ctx, ast.Store) and \
+                    not isinstance(prog.parent(x), (ast.comprehension, ast.For)):
+                return None
+        if len(binders) != 1:
+            return None
+
+        def scalar(mod: Module, e: ast.expr, depth: int):
+            if isinstance(e, ast.Constant):
+                return (e.value,)
+            if depth < 5 and isinstance(e, (ast.Name, ast.Attribute)):
+                sym = prog.resolve_expr_symbol(mod, e)
+                if isinstance(sym, tuple) and sym[0] == 'const':
+                    return scalar(sym[2], sym[1], depth + 1)
+            return None
+
+        def elements(f: Optional[FuncInfo], mod: Module, e: ast.expr, depth: int) -> Optional[list]:
+            if depth > 6:
+                return None
+            if isinstance(e, (ast.Tuple, ast.List)):
+                out = []
+                for x in e.elts:
+                    v = scalar(mod, x, 0)
+                    if v is None:
+                        return None
+                    out.append(v[0])
+                return out
+            if isinstance(e, ast.Call) and isinstance(e.func, ast.Name) and e.func.id in ('list', 'tuple', 'sorted', 'reversed') and \
+                    len(e.args) == 1 and not e.keywords and prog.resolve_name(mod, e.func.id) is None:
+                return elements(f, mod, e.args[0], depth + 1)
+            if isinstance(e, ast.Name) and f is not None and e.id in [a.arg for a in f.params()]:
+                if e.id in self.cg.env(f)._assign_sites:
+                    return None
+                callers = self.cg.callers(f)
+                if not callers:
+                    return None
+                a_ = f.node.args
+                pos_ = list(a_.posonlyargs) + list(a_.args)
+                dflts = dict(zip([p_.arg for p_ in pos_][len(pos_) - len(a_.defaults):], a_.defaults))
+                dflts.update({p_.arg: d_ for p_, d_ in zip(a_.kwonlyargs, a_.kw_defaults) if d_ is not None})
+                out = []
+                for cfn, cnode, _k in callers:
+                    if not isinstance(cnode, ast.Call) or any(isinstance(x, ast.Starred) for x in cnode.args) or \
+                            any(k.arg is None for k in cnode.keywords):
+                        return None
+                    b = prog.bind_call(cfn.module, cnode, f)
+                    if e.id in b:
+                        sub = elements(cfn, cfn.module, b[e.id], depth + 1)
+                    elif e.id in dflts:
+                        sub = elements(None, f.module, dflts[e.id], depth + 1)
+                    else:
+                        return None
+                    if sub is None:
+                        return None
+                    out.extend(sub)
+                return out
+            if isinstance(e, (ast.Name, ast.Attribute)):
+                if isinstance(e, ast.Name) and f is not None and (e.id in self.cg.env(f).vars or self.cg.env(f)._assign_sites.get(e.id)):
+                    d = self.cg.env(f).single_def(e.id)
+                    return elements(f, mod, d, depth + 1) if d is not None else None
+                sym = prog.resolve_expr_symbol(mod, e)
+                if isinstance(sym, tuple) and sym[0] == 'const':
+                    return elements(None, sym[2], sym[1], depth + 1)
+            return None
+        return elements(fn, fn.module, binders[0], 0)
 
     def _enum_exhausted(self, atoms: List[tuple], binding) -> bool:
         """atoms contain `place != M` for every member M of the (non-optional) enum type of place."""
